@@ -237,7 +237,10 @@ class C03(runner.Prop):
         if len(set(res.values())) > 1:
             ctx.fail('deep/parity', f'{k} depth={depth}: {res!r}')
         limit = optree.MAX_RECURSION_DEPTH
-        expect = 'RecursionError' if depth > limit else None
+        # the leaf sits at depth `depth`; a predicate stopping at the innermost container ends one level earlier
+        stops_early = case['cfg']['pred'] == 'holds_one_int' and depth >= 1 and gen.PREDICATES['holds_one_int'](deep(k, 1, 1))
+        deepest = depth - 1 if stops_early else depth
+        expect = 'RecursionError' if deepest > limit else None
         got = res['tree_flatten']
         if got != expect:
             ctx.fail('deep/limit', f'{k} depth={depth}: flatten -> {got}, expected {expect} (limit {limit})')
@@ -251,8 +254,9 @@ class C03(runner.Prop):
                 for ns in ('', U.NS):
                     if k == 'cn' and ns == '':
                         continue
-                    ctx.run_case({'kind': 'deep', 'container': k, 'depth': depth,
-                                  'cfg': {'nil': False, 'ns': ns, 'pred': 'none', 'mode': 'sorted'}})
+                    for pred in ('none', 'int_leaf', 'holds_one_int'):
+                        ctx.run_case({'kind': 'deep', 'container': k, 'depth': depth,
+                                      'cfg': {'nil': False, 'ns': ns, 'pred': pred, 'mode': 'sorted'}})
 
 
 def _bad_nodes(desc):
